@@ -61,3 +61,5 @@ package middlewares
 //@   at-call fiber.Ctx.Path {C04} [only-dot-free-paths-are-installed] when len($1) > 0 :: requires !backend.HasDotSegment($1[0])
 //@   at-call fiber.Ctx.Next {C04} [ids-are-single-path-elements] requires backend.IsPathComponent(ctx.Query("versionId")) && backend.IsPathComponent(ctx.Query("uploadId"))
 //@   at-call fiber.Ctx.Next {C04} [next-only-after-installing-the-decoded-path] requires called("fiber.Ctx.Path")
+// C08: an upload id that is given is not empty (the empty id is the directory of all uploads of the key)
+//@   at-call fiber.Ctx.Next {C08} [a-given-upload-id-is-not-empty] requires !ctx.Request().URI().QueryArgs().Has("uploadId") || len(ctx.Request().URI().QueryArgs().Peek("uploadId")) != 0
